@@ -8,6 +8,7 @@ namespace Pug.Tpl
 /-- an operand of a command: `$x`, a literal, `(name args…)`, or a field/method access `recv.name args…` -/
 inductive TExpr where
   | var (x : String)                                          -- `$x`
+  | dot                                                       -- `.`
   | lit (v : Val)                                             -- raw int / float64 / string / bool literal
   | fcall (name : String) (args : List TExpr)                 -- `(name a b …)`, also a bare identifier (`null`, `Math`)
   | field (recv : TExpr) (name : String) (args : List TExpr)  -- `recv.name a b …` (member, or method call)
@@ -34,6 +35,7 @@ inductive Act where
 inductive Frag where
   | text (s : String)
   | act (ltrim rtrim : Bool) (a : Act)
+  | blockDef (mixin : String) (body : List Frag)   -- a mixin call's block, hoisted into its own `define` by the transpiler
   deriving Repr, Inhabited
 
 /-- nested template tree (what parse.Parse builds) -/
